@@ -788,8 +788,9 @@ class Interp:
         """modular call if the callee has a contract, else inline"""
         if self.registry is not None and not isinstance(fn.node, ast.Lambda):
             con = self.registry.lookup(fn.full)
+            rec_ok = fn.full == self.opts.get('verifying') and self.opts.get('recursive_contract')
             if con is not None and fn.full not in self.opts.get('force_inline', ()) \
-                    and fn.full != self.opts.get('verifying'):
+                    and (fn.full != self.opts.get('verifying') or rec_ok):
                 r = con.apply(self, fn, args, kwargs)
                 if r is not NotImplemented:
                     self.used_contracts.add(fn.full)
